@@ -253,8 +253,13 @@ func (r *Report) Finish(verifDir string) int {
 
 	// evidence
 	samples := []any{}
-	for i, o := range r.Obs {
-		if i < 400 {
+	for _, o := range r.Obs { // everything that does not hold first: the sample is capped
+		if o.Verdict != Holds {
+			samples = append(samples, o)
+		}
+	}
+	for _, o := range r.Obs {
+		if o.Verdict == Holds && len(samples) < 400 {
 			samples = append(samples, o)
 		}
 	}
